@@ -439,12 +439,12 @@ def run_case(inp, doc):
 LONG = 2000
 
 
-def make_inp(doc, tree, sp, xkind, xpos, xnl, xtext, how):
+def make_inp(doc, tree, sp, xkind, xpos, xnl, xtext, how, src="enum"):
   ftext = spell(tree, sp)
   return {"tree": tree, "spell": sp, "ftext": esc(ftext), "pytext": esc(python_text(tree)),
           "xkind": xkind, "xpos": xpos, "xnl": xnl,
           "xtext": esc(xtext) if len(xtext) <= LONG else "", "xlen": len(xtext), "_xtext": xtext,
-          "how": how, "rows": doc["rows"], "newrow": doc["newrow"]}
+          "how": how, "src": src, "rows": doc["rows"], "newrow": doc["newrow"]}
 
 
 PY_TOKENS = ["$a", "$b", "$", "rec", "rec.a", ".", "=", "==", "(", ")", "[", "]", "{", "}", ":", ",", ";", "\n", "\n  ",
@@ -529,9 +529,9 @@ def expand(item, doc):
     texts = hypothesis_texts(item["hyp"], item["n"])
     trees = item["trees"]
     return [make_inp(doc, trees[k % len(trees)][0], trees[k % len(trees)][1], "text", "alone", "lf", t,
-                     "modify" if k % 2 == 0 else "meta") for k, t in enumerate(texts)]
+                     "modify" if k % 2 == 0 else "meta", "hyp") for k, t in enumerate(texts)]
   if "rand" in item:
-    return [x for it in random_items(item["rand"], item["n"]) for x in expand(it, doc)]
+    return [dict(x, src="rand") for it in random_items(item["rand"], item["n"]) for x in expand(it, doc)]
   if "xtext" in item:
     return [make_inp(doc, item["tree"], item["spell"], "text", "alone", "lf", unesc(item["xtext"]), item["how"])]
   xtext = fragment_text(item["xkind"], item["xpos"], item["xnl"])
